@@ -136,6 +136,15 @@ def finish(ctx, mod, write_evidence=True):
     lines = []
     rdir = os.path.join(core.VERIF, 'replays', prop)
     todo = [sig for sig in sorted(ctx.viol) if not sig.startswith('harness/')]
+    # every reported violation is replayed in fresh processes first; a tree that breaks a property in hundreds of
+    # distinctly named ways gets the first CAP of them replayed (signatures not listed as known findings first), the
+    # rest is counted only - the exit status is 1 either way
+    CAP = 60
+    todo.sort(key=lambda s_: (core.known_for(prop, s_, known) is not None, s_))
+    skipped = todo[CAP:]
+    todo = todo[:CAP]
+    for s_ in skipped:
+        del ctx.viol[s_]
     first = dict(zip(todo, core.isolated_calls_many(mod.__name__, ctx.seed, ctx.repo,
                                                     [(ctx.viol[s_]['fn'], ctx.viol[s_]['case']) for s_ in todo], 2,
                                                     parallel=max(2, min(8, ctx.workers)))))
@@ -189,6 +198,9 @@ def finish(ctx, mod, write_evidence=True):
         lines.append('VIOLATION property=%s replay=%s' % (prop, path))
         lines.append('  signature=%s cases=%d detail=%s' % (
             sig, e['count'], json.dumps(e['detail'])[:400]))
+    if skipped:
+        lines.append('NOTE: %d further violation signatures were not replayed (more than %d distinct signatures)' % (
+            len(skipped), CAP))
     wall = time.time() - ctx.t0
     states = len(ctx.state_keys)
     cov = {
